@@ -237,3 +237,36 @@ PROPS['C12'] = dict(
         thorough=[rc(600000, shards=4, max_size=600, corpus=CORPUS), fuzz(20000000, shards=12, max_len=2048, corpus=CORPUS)],
     ),
 )
+
+PROPS['C16'] = dict(
+    harness='apiseq', env={'VH_PROP': 'C16'}, replay_timeout=10,
+    rule=(APISEQ_RULE + 'The harness installs a counting callback in the public cb slot before every call: per call, token callbacks <= bytes the cursor '
+          'advanced + 1 (+1 more for a failed lookup, which re-reads the one name it overshot, and for get_raw/to_writer, which scan twice), token callbacks '
+          '<= input length + 1 for every call incl. verify, and the cursor never moves backwards except by restarting calls (init/reset/verify/print/'
+          'to_string). A watchdog (libFuzzer -timeout=10, rapidcheck job cap + 10 s replay) reports a hang only after three confirming replays of the saved '
+          'case. Non-trivial iff some call advanced over >= 2 tokens without returning to the caller; distinct = hash(document, op kinds).'),
+    tiers=dict(
+        quick=[rc(30000, shards=6, max_size=250, corpus=CORPUS, hang_is_violation=True, timeout=400),
+               fuzz(350000, shards=10, corpus=CORPUS, unit_timeout=10, timeouts_count=True)],
+        thorough=[rc(600000, shards=4, max_size=500, corpus=CORPUS, hang_is_violation=True, timeout=3000),
+                  fuzz(40000000, shards=12, max_len=4096, corpus=CORPUS, unit_timeout=10, timeouts_count=True)],
+    ),
+)
+
+FOOT_VARIANTS = ['foot-gcc-%s-%s' % (o, p) for o in ('O0', 'O2', 'Os') for p in ('print', 'noprint')]
+PROPS['C17'] = dict(
+    harness='foot', default_variant='foot-gcc-O2-print',
+    rule=('cases, run against the uninstrumented library built as a shared object in each of gcc {-O0,-O2,-Os} x {with, without BINSON_PARSER_WITH_PRINT}: '
+          '(a) scaling triples: a document shape (nested objects, nested arrays, element count, string and name length) and the same shape scaled in a '
+          'generated subset of those dimensions (to 200-254 levels, +500..2000 elements, 30000-65000-byte payloads, 20000-30000-byte names); every public '
+          'entry point (init, verify, go_into, next, skip, leave, lookups hit/miss, get_raw, to_writer, to_string, to_string(NULL), print, all writer '
+          'calls) runs on a private painted stack and its high-water mark must agree within 512 B across the three sizes; (b) interleavings: two parsers '
+          'and two writers with generated documents/scripts stepped in a generated schedule vs. alone, traces must agree. Around every case the library\'s '
+          'writable segment (-z relro -z now) must be byte-identical and the counting wrappers that replace every allocator symbol referenced by the '
+          'library objects must not have been called. Every case is non-trivial by construction (scaled nesting >= 200 or payload >= 1 KiB, or an '
+          'interleaving with >= 4 switches); distinct = hash(shape parameters / documents and schedule).'),
+    tiers=dict(
+        quick=[rc(350, shards=2, max_size=200, variant=v, tag=v) for v in FOOT_VARIANTS],
+        thorough=[rc(8000, shards=2, max_size=300, variant=v, tag=v) for v in FOOT_VARIANTS],
+    ),
+)
